@@ -890,9 +890,7 @@ impl ParserListener for Screen {
             0 => Box::new(self.cursor.x..self.columns),
             1 => Box::new(0..=self.cursor.x),
             2 => Box::new(0..self.columns),
-            _ => {
-                panic!("invalid eras_in_line parameter");
-            } // Handle invalid `how` values if necessary
+            _ => return, // Unsupported selectors are ignored.
         };
 
         let line = self.buffer.entry(self.cursor.y).or_insert(HashMap::new());
